@@ -1,5 +1,5 @@
 SPECIFICATION Spec
-CONSTANTS ThreadsC = {0, 1}  NLpC = 2  OwnerOf <- M1_Owner  InitEv <- M1_Init  Trans <- M1_Trans  MaxMsg = 16  CkptEvery = 1  MaxGvt = 2
+CONSTANTS ThreadsC = {0, 1}  NLpC = 2  OwnerOf <- M1_Owner  InitEv <- M1_Init  Trans <- M1_Trans  MaxMsg = 16  CkptEvery = 1  MaxGvt = 2  RecordSched = FALSE
 INVARIANT NoCheckFails
 INVARIANT PoolSufficient
 INVARIANT C01_FinalEqualsSequential
